@@ -6,7 +6,9 @@
      ms   the same from the nearest spec class on (the class whose generated constructor runs)
 
    - an attribute is owned by the nearest spec class of ms that declares it (annotation,
-     Attr/field object, overflow attribute or key named by the decorator);
+     Attr/field object, overflow attribute named by the decorator, or key named by the decorator
+     when the class does not inherit an attribute of that name: re-stating an inherited key
+     changes nothing);
    - its value is the prepared keyword if one was given, otherwise the nearest class-level
      default along the MRO of type(self) (a default_factory counts on the owner only; past
      the owner only the owner's own ancestors count), otherwise the attribute stays absent;
@@ -44,13 +46,6 @@ Definition decl_names (k : cdesc) : list aid :=
 Definition is_attr_entry (o : option entry) : bool :=
   match o with Some (EAttr _ _ _) => true | _ => false end.
 
-Definition declares (k : cdesc) (a : aid) : bool :=
-  is_spec k && (memb a (decl_names k) || is_attr_entry (assoc a (k_dict k))).
-
-(* a spec class whose body says anything about a *)
-Definition mentions (k : cdesc) (a : aid) : bool :=
-  is_spec k && (memb a (decl_names k) || has a (k_dict k)).
-
 Fixpoint nodup_first (l : list aid) : list aid :=
   match l with
   | [] => []
@@ -72,13 +67,6 @@ Fixpoint restrict (want : list cid) (l : list cdesc) : list cdesc :=
               else restrict want t
   end.
 
-(* l from its first class satisfying f on, restricted to that class's own MRO *)
-Fixpoint up_from (f : cdesc -> bool) (l : list cdesc) : list cdesc :=
-  match l with
-  | [] => []
-  | k :: t => if f k then restrict [k_id k] l else up_from f t
-  end.
-
 (* decorator settings are inherited from the first spec class of the MRO, which inherits
    them from the first spec class of ITS MRO, ...: that line of spec classes *)
 Fixpoint lineage (want : list cid) (l : list cdesc) : list cdesc :=
@@ -88,6 +76,43 @@ Fixpoint lineage (want : list cid) (l : list cdesc) : list cdesc :=
               then (if is_spec k then k :: lineage (k_bases k) t
                     else lineage (k_bases k ++ want) t)
               else lineage want t
+  end.
+
+(* names managed along an MRO, in declaration order from the root *)
+Definition managed_l (l : list cdesc) : list aid :=
+  nodup_first (flat_map decl_names (rev (meta_anc l))).
+
+(* names a spec class body declares outright: annotations and the decorator's overflow attribute *)
+Definition hard_names (k : cdesc) : list aid :=
+  map fst (k_annots k) ++ match stated_ovf k with Some (Some o) => [o] | _ => [] end.
+
+Definition states_key (k : cdesc) (a : aid) : bool :=
+  match stated_key k with Some (Some x) => x =? a | _ => false end.
+
+(* the key named by the decorator introduces an attribute unless the class already inherits
+   one of that name (t: the rest of the MRO); re-stating an inherited key changes nothing *)
+Definition adds_key (k : cdesc) (t : list cdesc) (a : aid) : bool :=
+  states_key k a && negb (memb a (managed_l t)).
+
+Definition declares_at (k : cdesc) (t : list cdesc) (a : aid) : bool :=
+  is_spec k && (memb a (hard_names k) || is_attr_entry (assoc a (k_dict k)) || adds_key k t a).
+
+(* a spec class whose body says anything about a *)
+Definition mentions_at (k : cdesc) (t : list cdesc) (a : aid) : bool :=
+  is_spec k && (memb a (hard_names k) || has a (k_dict k) || adds_key k t a).
+
+(* the nearest class of l that declares a *)
+Fixpoint owner_in (l : list cdesc) (a : aid) : option cdesc :=
+  match l with
+  | [] => None
+  | k :: t => if declares_at k t a then Some k else owner_in t a
+  end.
+
+(* l from its nearest class that mentions a on, restricted to that class's own MRO *)
+Fixpoint built_from (a : aid) (l : list cdesc) : list cdesc :=
+  match l with
+  | [] => []
+  | k :: t => if mentions_at k t a then restrict [k_id k] l else built_from a t
   end.
 
 (* what a class body provides as default for a (o: the owner of a) *)
@@ -120,9 +145,9 @@ Section Spec.
 
   Definition ms : list cdesc := meta_anc ks.
 
-  Definition managed : list aid := nodup_first (flat_map decl_names (rev ms)).
+  Definition managed : list aid := managed_l ks.
 
-  Definition owner_cls (a : aid) : option cdesc := find (fun k => declares k a) ms.
+  Definition owner_cls (a : aid) : option cdesc := owner_in ms a.
   Definition owner (a : aid) : option cid :=
     match owner_cls a with Some k => Some (k_id k) | None => None end.
 
@@ -144,7 +169,7 @@ Section Spec.
     end.
 
   Definition prep_of (a : aid) : option fn :=
-    first_some (fun k => assoc a (k_preps k)) (up_from (fun k => mentions k a) ms).
+    first_some (fun k => assoc a (k_preps k)) (built_from a ms).
 
   Definition settings_line : list cdesc :=
     match ms with m :: _ => lineage [k_id m] ms | [] => [] end.
